@@ -70,6 +70,11 @@ func collectFields(reqCtx *OperationContext, selSet ast.SelectionSet, satisfies 
 
 		case *ast.FragmentSpread:
 			fragmentName := sel.Name
+			// @skip / @include are evaluated before the spread is recorded as visited:
+			// a skipped spread must not suppress a later spread of the same fragment.
+			if !shouldIncludeNode(sel.Directives, reqCtx.Variables) {
+				continue
+			}
 			if _, seen := visited[fragmentName]; seen {
 				continue
 			}
